@@ -80,7 +80,7 @@ def main():
         subprocess.check_call(["git", "-C", "/repo", "apply", patch])
         try:
             for c in checks:
-                for tier in ("quick", "thorough"):
+                for tier in os.environ.get("SEED_TIERS", "quick thorough").split():
                     t0 = time.time()
                     p = subprocess.run([os.path.join(VERIF, "bin", "check"), c, "--tier", tier], cwd=VERIF, stdout=subprocess.PIPE, stderr=subprocess.STDOUT)
                     out = p.stdout.decode("utf-8", "replace")
